@@ -21,11 +21,6 @@ package termrenderers
 //@   modifies ghost sb_content(sb)
 //@ func underlineHeaderChar
 //@   pure
-//@ func maxi64
-//@   pure
-//@ func sumi64
-//@   pure
-
 // ---- histogram ----
 //@ pred wf_histo(s) := s.textSpacing >= 0
 //@ func (*HistoWriter).WriteForLine
@@ -91,32 +86,74 @@ package termrenderers
 // ---- bar graph ----
 //@ pred wf_bar(s) := s.maxKeyLength >= 0 && s.maxKeyLength <= 140737488355328 && len(s.rows) <= 1000001 && s.prefixLines >= 0 && s.prefixLines <= 1 && s.maxRows >= 0 && s.maxRows <= 2000000000000
 //@      && s.BarSize >= 0 && s.BarSize <= 1000000 && len(s.subKeys) <= 1000000
+// One scale per pass: a row is within the scale m when the sum of its values (stacked) or each of its
+// values (grouped) is at most m; every stored row is within the scale maxLineVal,
+// drawing a row never changes the scale, and WriteBar redraws every row when it raises the scale.
+//@ smt
+//@ (define-fun wrap64 ((x Int)) Int (ite (> x 9223372036854775807) (- x 18446744073709551616) (ite (< x (- 9223372036854775808)) (+ x 18446744073709551616) x)))
+//@ (define-fun-rec sum_n ((a (Array Int Int)) (o Int) (n Int)) Int (ite (<= n 0) 0 (wrap64 (+ (sum_n a o (- n 1)) (select a (+ o (- n 1)))))))
+//@ end
+//@ pred within(stacked, v, m) := if stacked then sum_n(arr(v), off(v), len(v)) <= m else (forall k in [0, len(v)) :: v[k] <= m)
+//@ func sumi64
+//@   pure
+//@   ensures ret == sum_n(arr(vals), off(vals), len(vals))
+//@   loop 1 invariant ret == sum_n(arr(vals), off(vals), rangeindex + 1) && rangeindex + 1 <= len(vals) && rangelen() == len(vals)
+//@ func maxi64
+//@   pure
+//@   ensures ret >= 0 && (forall k in [0, len(vals)) :: vals[k] <= ret)
+//@   ensures [attained] ret == 0 || (exists k in [0, len(vals)) :: vals[k] == ret)
+//@   loop 1 invariant ret >= 0 && (forall k in [0, rangeindex + 1) :: vals[k] <= ret) && rangeindex + 1 <= len(vals) && rangelen() == len(vals)
+//@   loop 1 invariant ret == 0 || (exists k in [0, rangeindex + 1) :: vals[k] == ret)
+//@   loop 1 invariant ref(rangeslice()) == ref(vals) && off(rangeslice()) == off(vals)
 //@ func (*BarGraph).SetKeys
 //@   requires wf_bar(s) && len(keyItems) <= 1000000
 //@   ensures wf_bar(s)
 //@   loop 1 invariant wf_bar(s)
+// drawn_at(s)[i]: the scale row i was last drawn with (0: never drawn, or drawn while the scale was 0)
+//@ ghost drawn_at(BarGraph) ints
+//@ pred one_scale(s) := forall i: int :: drawn_at(s)[i] == 0 || (0 <= i && i < len(s.rows) && drawn_at(s)[i] == s.maxLineVal)
+//@ pred rows_ok(s) := s.maxLineVal >= 0 && (forall i in [0, len(s.rows)) :: within(s.Stacked, s.rows[i].vals, s.maxLineVal))
 //@ func (*BarGraph).WriteBar
 //@   requires wf_bar(s) && idx >= 0 && idx <= 1000000
+//@   requires [objinv] rows_ok(s)
 //@   ensures wf_bar(s)
-//@   loop 1 invariant wf_bar(s)
-//@   loop 2 invariant wf_bar(s) && rangelen() <= 1000001
+//@   requires [objinv] one_scale(s)
+//@   ensures [one-scale] rows_ok(s) && one_scale(s) && drawn_at(s)[idx] == s.maxLineVal
+//@   loop 1 invariant wf_bar(s) && rows_ok(s) && s.maxLineVal == old(s.maxLineVal) && s.Stacked == old(s.Stacked) && drawn_at(s) == old(drawn_at(s)) && len(s.rows) >= old(len(s.rows))
+//@   loop 2 invariant wf_bar(s) && rangelen() <= 1000001 && rows_ok(s) && s.Stacked == old(s.Stacked) && idx < len(s.rows)
+//@   loop 2 invariant rangeindex + 1 <= len(s.rows) && (forall j in [0, rangeindex + 1) :: drawn_at(s)[j] == s.maxLineVal)
+//@   loop 2 invariant forall j: int :: j < 0 || j >= len(s.rows) ==> drawn_at(s)[j] == 0
+//@   loop 2 invariant ref(rangeslice()) == ref(s.rows) && off(rangeslice()) == off(s.rows) && len(rangeslice()) == len(s.rows)
 //@ func (*BarGraph).writeBar
 //@   requires wf_bar(s) && idx >= 0 && idx <= 1000000
-//@   modifies s.maxLineVal, s.maxRows, dyn(s.writer).*
+//@   ensures [drawn-at-scale] drawn_at(s) == store(old(drawn_at(s)), idx, s.maxLineVal)
+//@   requires [row-within-scale] s.maxLineVal >= 0 && within(s.Stacked, vals, s.maxLineVal)
+//@   modifies s.maxRows, dyn(s.writer).*, ghost drawn_at(s)
 //@   ensures wf_bar(s)
 //@ func (*BarGraph).writeBarGrouped
 //@   requires wf_bar(s) && idx >= 0 && idx <= 1000000
-//@   modifies s.maxLineVal, s.maxRows, dyn(s.writer).*
+//@   ghostset at "line := s.prefixLines + idx*len(s.subKeys)" : drawn_at(s) := store(old(drawn_at(s)), idx, s.maxLineVal)
+//@   ensures [drawn-at-scale] drawn_at(s) == store(old(drawn_at(s)), idx, s.maxLineVal)
+//@   requires [row-within-scale] s.maxLineVal >= 0 && (forall k in [0, len(vals)) :: vals[k] <= s.maxLineVal)
+//@   modifies s.maxRows, dyn(s.writer).*, ghost drawn_at(s)
 //@   ensures wf_bar(s)
-//@   loop 1 invariant wf_bar(s)
+//@   loop 1 invariant wf_bar(s) && rangeindex + 1 <= len(vals) && rangelen() == len(vals) && s.maxLineVal == old(s.maxLineVal)
+//@   loop 1 invariant drawn_at(s) == old(drawn_at(s))
+//@   loop 1 invariant ref(rangeslice()) == ref(vals) && off(rangeslice()) == off(vals)
 //@   loop 2 invariant wf_bar(s) && 0 <= i && line >= 0 && line <= 1000001000001
+//@   loop 2 invariant s.maxLineVal == old(s.maxLineVal) && drawn_at(s) == store(old(drawn_at(s)), idx, s.maxLineVal)
 //@ func (*BarGraph).writeBarGrouped$1
 //@   requires w != nil && *s != nil && (*s).BarSize >= 0 && (*s).BarSize <= 1000000 && 0 <= *i && *i < len(*vals)
 //@   modifies ghost sw_calls(w)
 //@ func (*BarGraph).writeBarStacked
 //@   requires wf_bar(s) && idx >= 0 && idx <= 1000000
-//@   modifies s.maxLineVal, s.maxRows, dyn(s.writer).*
+//@   ghostset at "line := idx + s.prefixLines" : drawn_at(s) := store(old(drawn_at(s)), idx, s.maxLineVal)
+//@   ensures [drawn-at-scale] drawn_at(s) == store(old(drawn_at(s)), idx, s.maxLineVal)
+//@   requires [row-within-scale] s.maxLineVal >= 0 && sum_n(arr(vals), off(vals), len(vals)) <= s.maxLineVal
+//@   modifies s.maxRows, dyn(s.writer).*, ghost drawn_at(s)
 //@   ensures wf_bar(s)
-//@   loop 1 invariant wf_bar(s)
+//@   loop 1 invariant wf_bar(s) && total == sum_n(arr(vals), off(vals), rangeindex + 1) && rangeindex + 1 <= len(vals) && rangelen() == len(vals) && s.maxLineVal == old(s.maxLineVal)
+//@   loop 1 invariant drawn_at(s) == old(drawn_at(s))
+//@   loop 1 invariant ref(rangeslice()) == ref(vals) && off(rangeslice()) == off(vals)
 //@ func (*BarGraph).WriteFooter
 //@   requires wf_bar(s) && idx >= 0 && idx <= 1000000000
